@@ -489,3 +489,42 @@ def r11F(F, rid='11.F'):
 RULES.append(('11.F', 'filter_block remembers every transaction it reports (return true only after inserting the txid into the matched set; value-refined path rule Func.bool_return_paths)', r11F))
 RULES.append(('11.G', 'guard census: no reviewed call of a workspace function and no reviewed mutation of a stored collection gained a controlling branch condition (an added `&& cond`, early return / continue, more specific match arm in front of an act); counts per call site, name free (rules/guards.py)', lambda F: guards.for_property(F, 'C11', '11.G')))
 RULES.append(('11.W', 'field assignments: every reviewed (function, Type.field) direct assignment is still made - state that a path no longer updates, or updates only conditionally (get_or_insert for an overwrite); generalises NN.R (rules/writes.py)', lambda F: writes.for_property(F, 'C11', '11.W')))
+
+def r11H(F, rid='11.H'):
+	"""block_confirmed hands the OnchainTxHandler the height of the block that CONFIRMED the transactions (its own conf_height parameter), not the
+	current tip, as the confirmation height of claims and contentious outpoints: with the tip height a transaction reported below the tip (Confirm
+	clients deliver best_block_updated first) is taken for unconfirmed by a reorg of the blocks above it, and its already spent outpoint is merged
+	back into the claim package"""
+	fn = MON + 'block_confirmed'
+	fu = F.func(fn)
+	ex = Expr(fu)
+	own = {fu.vars.get(i): i for i in range(1, fu.argc + 1)}
+	if 'conf_height' not in own:
+		return [Result(rid, False, 'anchor:conf_height-param', 'block_confirmed has no conf_height parameter', where=F.where(fn))]
+	out = []
+	n = 0
+	for callee in ('update_claims_view_from_requests', 'update_claims_view_from_matched_txn'):
+		full = 'lightning::chain::onchaintx::OnchainTxHandler::' + callee
+		try:
+			cu = F.func(full)
+		except AnchorMissing:
+			out.append(Result(rid, False, 'anchor:' + callee, callee + ' not found'))
+			continue
+		ps = [cu.vars.get(i) for i in range(1, cu.argc + 1)]
+		if 'conf_height' not in ps or 'cur_height' not in ps:
+			out.append(Result(rid, False, 'anchor:%s-params' % callee, '%s has no conf_height / cur_height parameters (%s)' % (callee, ps)))
+			continue
+		for b in sites_call(fu, [full]):
+			n += 1
+			args = fu.blocks[b]['t'][2]['args']
+			ec = ex.of_operand(args[ps.index('conf_height')])
+			eh = ex.of_operand(args[ps.index('cur_height')])
+			okc = ec[0] == 'local' and ec[1] == own['conf_height']
+			okh = 'best_block' in leaf_key(eh) and 'height' in leaf_key(eh)
+			out.append(Result(rid, okc, ('ok:' if okc else 'height:') + 'conf-height@' + callee, 'block_confirmed passes its own conf_height parameter as the confirmation height to %s' % callee if okc else 'block_confirmed passes `%s` (not its conf_height parameter) as the confirmation height to %s: claims and contentious outpoints are stamped with the wrong block' % (expr_str(ec)[:60], callee), 1, where=F.where(fn, fu.line_of(b))))
+			out.append(Result(rid, okh, ('ok:' if okh else 'height:') + 'cur-height@' + callee, 'block_confirmed passes the best block height as the current height to %s' % callee if okh else 'block_confirmed passes `%s` as the current height to %s (expected self.best_block.height)' % (expr_str(eh)[:60], callee), 1, where=F.where(fn, fu.line_of(b))))
+	if n < 2:
+		out.append(Result(rid, False, 'floor:handler-calls', 'only %d calls of the claims-view updaters in block_confirmed (expected 2)' % n, n))
+	return out
+
+RULES.append(('11.H', 'block_confirmed hands the OnchainTxHandler its own conf_height parameter as confirmation height and the best block height as current height (argument provenance by position)', r11H))
